@@ -33,6 +33,7 @@ def plan(ctx):
     jobs += [("order", {"shard": i, "nshards": ns}) for i in range(ns)]
     jobs += [("toolrep", {"shard": i, "nshards": 8}) for i in range(8)]
     jobs += [("hijri", {})]
+    jobs += [("bizrep", {"shard": i, "nshards": 8}) for i in range(8)]
     return jobs
 
 
@@ -283,8 +284,84 @@ def toolrep(ctx, shard, nshards):
     return sub
 
 
+CAL_T = {"ymd": R.f_ymd, "ywd": lambda n: "%04d-W%02d-%d" % R.iso(n), "yd": R.f_yd, "ymcw": R.f_ymcw,
+         "ldn": lambda n: "%d" % R.ldn(n)}
+
+
+def bizrep(ctx, shard, nshards):
+    """values held as business-day dates (YYYY-MM-DDb): every specifier prints what it prints for the
+    same day held as ymd (= the reference text), alone and after the other specifiers; conversion to
+    every other calendar and back"""
+    sub = Sub("c02.bizrep")
+    V = Viol(sub, "C02")
+    days, exh = days_for(ctx, shard, nshards, 20000, ctx.thorough)
+    days = [n for n in days if R.is_bday(n)]
+    sub.exhaustive = False
+    lines = [R.f_bizda(n) for n in days]
+    ref = [SP.render(n, SPECS) for n in days]
+    rnd = random.Random(ctx.sub_seed("bizrep", shard))
+    fmts = [list(SPECS)]
+    for _ in range(2 if not ctx.thorough else 8):
+        p = list(SPECS)
+        rnd.shuffle(p)
+        fmts.append(p)
+    for p in fmts:
+        try:
+            out, _ = run_lines(ctx.build, "dconv", ["-f", "|".join(p)], lines)
+        except BatchError as e:
+            V.add("batch:bizrep", {"kind": "batch"}, detail=str(e), actual=e.result.brief())
+            continue
+        idx = [SPECS.index(sp) for sp in p]
+        for n, o, rf in zip(days, out, ref):
+            got = o.split("|")
+            sub.evaluations += len(p)
+            if len(got) != len(p):
+                V.add("bizrep:line", {"n": n, "fmt": "|".join(p), "spec": "*", "kind": "bizrep"}, expected="%d fields" % len(p), actual=o)
+                continue
+            for sp, g, i in zip(p, got, idx):
+                if g not in rf[i]:
+                    V.add("bizrep:%s" % sp, {"n": n, "fmt": "|".join(p), "spec": sp, "kind": "bizrep"}, expected=rf[i][0], actual=g)
+                    break
+    sub.nontrivial_count += len(days)
+    # conversion to the other calendars and back
+    for t, mk in CAL_T.items():
+        try:
+            out, _ = run_lines(ctx.build, "dconv", ["-f", t], lines)
+            # -f bizda is not implemented as a target ("we need a policy first", dt_conv_to_bizda);
+            # the business-day form of a day is printed with %db
+            back, _ = run_lines(ctx.build, "dconv", (["-i", "ldn"] if t == "ldn" else []) + ["-f", "%Y-%m-%db"], [mk(n) for n in days])
+        except BatchError as e:
+            V.add("batch:bizrep>" + t, {"kind": "batch"}, detail=str(e), actual=e.result.brief())
+            continue
+        for n, l, o, b in zip(days, lines, out, back):
+            sub.evaluations += 2
+            if o != mk(n):
+                V.add(tail("bizrep>%s" % t, n), {"n": n, "tgt": t, "kind": "bizconv"}, expected=mk(n), actual=o)
+            elif b != l:
+                V.add(tail("%s>bizrep" % t, n), {"n": n, "tgt": t, "kind": "bizconv"}, expected=l, actual=b)
+    sub.sample({"input": "2012-03-21b", "format": "%F %G-W%V-%u %j", "expected": "2012-03-29 2012-W13-4 089"})
+    return sub
+
+
 def replay(ctx, subname, case):
     k = case.get("kind")
+    if k == "bizrep":
+        n = case["n"]
+        out, _ = run_lines(ctx.build, "dconv", ["-f", case["fmt"]], [R.f_bizda(n)])
+        p = case["fmt"].split("|")
+        rf = SP.render(n, SPECS)
+        got = out[0].split("|")
+        for sp, g in zip(p, got):
+            if g not in rf[SPECS.index(sp)]:
+                return {"input": R.f_bizda(n), "spec": sp, "expected": rf[SPECS.index(sp)][0], "actual": g}
+        return None if len(got) == len(p) else {"actual": out[0]}
+    if k == "bizconv":
+        n, t = case["n"], case["tgt"]
+        out, _ = run_lines(ctx.build, "dconv", ["-f", t], [R.f_bizda(n)])
+        back, _ = run_lines(ctx.build, "dconv", (["-i", "ldn"] if t == "ldn" else []) + ["-f", "%Y-%m-%db"], [CAL_T[t](n)])
+        if out[0] != CAL_T[t](n):
+            return {"input": R.f_bizda(n), "expected": CAL_T[t](n), "actual": out[0]}
+        return None if back[0] == R.f_bizda(n) else {"input": CAL_T[t](n), "expected": R.f_bizda(n), "actual": back[0]}
     if k == "batch" or k == "batch-succ":
         return {"detail": "batch failure recorded; re-run the check"}
     if subname == "c02.roundtrip":
